@@ -3,6 +3,9 @@
 // them against a counting terminal receiver (or sync_wait / start_detached) and prints
 //   OUT PIPE <id> r=<V:..|E:n|S|none|multiK|abort|hang|ret:..|throw:n|released|died>
 //   OBS PIPE <id> n=<signals> live=<payloads alive after teardown> bad=<bad ctor/dtor> same=<..>
+//            lc/sc=<leaf / scheduler operation states constructed> ls/ss=<alive when the terminal receiver is
+//            called> ld/sd=<alive right after the receiver destroyed the operation state (mode rd)>
+//            ol=<operation states alive after teardown>   (compared with the ledger of Model/SenderLedger.v)
 // Cases run in a forked child so that PIKA_UNREACHABLE / terminate / a hang is an observation.
 // `c03_pipe typed` runs the statically typed (un-erased) corpus and prints its own IN lines.
 #include "common/c03_util.hpp"
@@ -267,14 +270,16 @@ static void finish_case(char const* id, CaseOut& co)
     }
     co.live = g_led.live();
     co.bad = g_led.bad.load();
-    std::printf("OUT PIPE %s r=%s\nOBS PIPE %s n=%d live=%ld bad=%ld same=%d\n", id, co.r.c_str(), id,
-        co.n, co.live, co.bad, co.same);
+    std::printf("OUT PIPE %s r=%s\nOBS PIPE %s n=%d live=%ld bad=%ld same=%d lc=%ld sc=%ld ls=%ld ss=%ld ld=%ld sd=%ld ol=%ld\n",
+        id, co.r.c_str(), id, co.n, co.live, co.bad, co.same, g_ops.leaf_c.load(), g_ops.sched_c.load(), g_ops.sig_leaf,
+        g_ops.sig_sched, g_ops.del_leaf, g_ops.del_sched, g_ops.leaf_live() + g_ops.sched_live());
     std::fflush(stdout);
 }
 
 static void run_case(std::string const& id, std::string const& mode, std::string const& sx)
 {
     g_led.reset();
+    g_ops.reset();
     CaseOut co;
     {
         Sx x = parse_sx(sx);
@@ -495,6 +500,7 @@ int main(int argc, char** argv)
                 if (jobs[i].typed)
                 {
                     g_led.reset();
+                    g_ops.reset();
                     CaseOut co;
                     jobs[i].typed(co);
                     finish_case(jobs[i].id.c_str(), co);
